@@ -10,5 +10,5 @@ Extraction "rp.ml" run_EV view_C03 ok_C03
   view_C08_CAE ok_C08_CAE view_C08_CAD ok_C08_CAD
   run_FRG view_C10 ok_C10 run_REA view_C02 ok_C02 run_BLD view_C07 ok_C07
   run_RCV run_LNK run_SND view_C06 ok_C06 view_C13 ok_C13 view_C19 ok_C19 view_C14 ok_C14
-  run_PRO run_EXC view_C15 ok_C15 view_C16 ok_C16 view_C17 ok_C17 view_C18 ok_C18
+  run_PRO run_EXC view_C15 ok_C15 view_C16 ok_C16 view_C17 ok_C17 view_C18 ok_C18 view_C18_PRO ok_C18_PRO
   run_E2E view_C01 ok_C01.
